@@ -22,8 +22,8 @@ VARIABLES net,        \* chunks in flight on the transport
           rwcClosed,  \* transport closed locally (rwc.Close)
           srMode,     \* "raw" | "pipe"
           srPending,  \* pipe installed, switch not yet performed
-          rd,         \* reader (serve) goroutine: "idle","inRaw","inPipe","failing","handler","exited"
-          cp,         \* copier goroutine: "none","inRaw","inWrite","done"
+          rd,         \* reader (serve) goroutine: "idle","inRaw","inPipe","failing","handler","closing","exited"
+          cp,         \* copier goroutine: "none","inRaw","inWrite","closing","done"
           pipe,       \* <<>> or <<chunk>>: chunk offered by the copier, not yet consumed
           pipeEnd,    \* pw.CloseWithError called (copier finished)
           prClosed,   \* pipe reader closed by the serve exit path (Fixed)
@@ -63,11 +63,15 @@ RdEnter == /\ rd = "idle"
            /\ UNCHANGED <<net, netEnd, rwcClosed, pipe, pipeEnd, prClosed, cn, gone, sent, got, ncn, nsent>>
 Deliver(k) == IF k = "m" THEN rd' = "handler" /\ got' = Append(got, k)
               ELSE rd' = "failing" /\ UNCHANGED got        \* read returned; the decode error comes next
-\* the exit path of conn.serve
-Exit == /\ rd' = "exited" /\ rwcClosed' = TRUE
-        /\ IF Fixed THEN /\ prClosed' = TRUE /\ gone' = TRUE
-                         /\ cn' = IF cn = "open" THEN "closed" ELSE cn
-                    ELSE UNCHANGED <<prClosed, gone, cn>>
+\* the exit path of conn.serve, in two steps as in the code: the loop closes the transport when a
+\* read fails (CloseRwc, part of the Rd*End / RdFail actions); the deferred function then closes it
+\* again and runs finish() (RdFinish).  The copier can run to completion in between.
+Exit == rd' = "closing" /\ rwcClosed' = TRUE /\ UNCHANGED <<prClosed, gone, cn>>
+RdFinish == /\ rd = "closing" /\ rd' = "exited"
+            /\ IF Fixed THEN /\ prClosed' = TRUE /\ gone' = TRUE
+                             /\ cn' = IF cn = "open" THEN "closed" ELSE cn
+                        ELSE UNCHANGED <<prClosed, gone, cn>>
+            /\ UNCHANGED <<net, netEnd, rwcClosed, srMode, srPending, cp, pipe, pipeEnd, sent, got, ncn, nsent>>
 RdFail == /\ rd = "failing" /\ Exit
           /\ UNCHANGED <<net, netEnd, srMode, srPending, cp, pipe, pipeEnd, sent, got, ncn, nsent>>
 RdRawData == /\ rd = "inRaw" /\ ~rwcClosed /\ net # <<>>
@@ -89,15 +93,19 @@ CpRead == /\ cp = "inRaw" /\ ~rwcClosed /\ net # <<>>
           /\ pipe' = <<Head(net)>> /\ net' = Tail(net) /\ cp' = "inWrite"
           /\ UNCHANGED <<netEnd, rwcClosed, srMode, srPending, rd, pipeEnd, prClosed, cn, gone, sent, got, ncn, nsent>>
 Notify == IF cn = "open" /\ ~gone THEN cn' = "closed" /\ gone' = TRUE ELSE UNCHANGED <<cn, gone>>
+\* io.Copy returned: pw.CloseWithError (the reader may now see the end of the pipe) ...
 CpEnd == /\ cp = "inRaw" /\ (rwcClosed \/ (net = <<>> /\ netEnd # "open"))
-         /\ cp' = "done" /\ pipeEnd' = TRUE /\ Notify
-         /\ UNCHANGED <<net, netEnd, rwcClosed, srMode, srPending, rd, pipe, prClosed, sent, got, ncn, nsent>>
+         /\ cp' = "closing" /\ pipeEnd' = TRUE
+         /\ UNCHANGED <<net, netEnd, rwcClosed, srMode, srPending, rd, pipe, prClosed, cn, gone, sent, got, ncn, nsent>>
 \* a pipe write fails once the read end has been closed (Fixed): the copier finishes
 CpWriteFails == /\ cp = "inWrite" /\ prClosed
-                /\ cp' = "done" /\ pipeEnd' = TRUE /\ pipe' = <<>> /\ Notify
-                /\ UNCHANGED <<net, netEnd, rwcClosed, srMode, srPending, rd, prClosed, sent, got, ncn, nsent>>
+                /\ cp' = "closing" /\ pipeEnd' = TRUE /\ pipe' = <<>>
+                /\ UNCHANGED <<net, netEnd, rwcClosed, srMode, srPending, rd, prClosed, cn, gone, sent, got, ncn, nsent>>
+\* ... and then notifyClientGone, as a separate step
+CpNotify == /\ cp = "closing" /\ cp' = "done" /\ Notify
+            /\ UNCHANGED <<net, netEnd, rwcClosed, srMode, srPending, rd, pipe, pipeEnd, prClosed, sent, got, ncn, nsent>>
 
-LibNext == RdEnter \/ RdRawData \/ RdRawEnd \/ RdPipeData \/ RdPipeEnd \/ RdFail \/ HandlerReturn \/ CpRead \/ CpEnd \/ CpWriteFails
+LibNext == RdEnter \/ RdRawData \/ RdRawEnd \/ RdPipeData \/ RdPipeEnd \/ RdFail \/ RdFinish \/ HandlerReturn \/ CpRead \/ CpEnd \/ CpWriteFails \/ CpNotify
 Next == \/ \E k \in {"m", "x"} : PeerSend(k)
         \/ \E h \in {"eof", "err"} : PeerEnd(h)
         \/ LocalClose \/ CloseNotify \/ LibNext
